@@ -13,6 +13,7 @@ import (
 	"github.com/jirenius/go-res/store/badgerstore"
 
 	"verif/scen"
+	"verif/vsched"
 )
 
 func init() {
@@ -22,11 +23,14 @@ func init() {
 
 type c13Val struct{ k1, k2 string } // "" = nil key
 
-var c13Vals = []c13Val{{"", ""}, {"k", ""}, {"ka", ""}, {"l", ""}, {"", "k"}, {"k", "k"}, {"ka", "k"}, {"l", "k"}}
+// "@" stands for a present but empty key (an empty, non-nil index key)
+var c13Vals = []c13Val{{"", ""}, {"k", ""}, {"ka", ""}, {"l", ""}, {"", "k"}, {"k", "k"}, {"ka", "k"}, {"l", "k"}, {"@", ""}, {"@", "k"}}
 
 func (v c13Val) value() map[string]interface{} {
 	m := map[string]interface{}{"x": "y"}
-	if v.k1 != "" {
+	if v.k1 == "@" {
+		m["k1"] = ""
+	} else if v.k1 != "" {
 		m["k1"] = v.k1
 	}
 	if v.k2 != "" {
@@ -102,6 +106,9 @@ func c13Ref(model map[string]c13Val, q c13Query) []string {
 		}
 		if k == "" {
 			continue
+		}
+		if k == "@" {
+			k = ""
 		}
 		if !strings.HasPrefix(k, q.Prefix) {
 			continue
@@ -285,7 +292,13 @@ func c13Run(db *badger.DB, prefix string, ops []c13Op, queries []c13Query, emit 
 						kb, ka = before.k2, after.k2
 					}
 					match := func(k string, present bool) bool {
-						if !present || k == "" || !strings.HasPrefix(k, q.Prefix) {
+						if !present || k == "" {
+							return false
+						}
+						if k == "@" {
+							k = ""
+						}
+						if !strings.HasPrefix(k, q.Prefix) {
 							return false
 						}
 						f := c13Filter(q.Filter)
@@ -388,6 +401,83 @@ func runC13(c *seqCtx) {
 	}
 	rec(nil, map[string]bool{})
 	c.Sample("create:a:2,create:b:1,update:a:3 => queries on index i prefix k reverse")
+	if c.Mine() {
+		sig := c13Burst(db, func(prop, desc string) { c.Fail(prop, desc+" [burst]", "burst") })
+		c.Eval("burst=>" + sig)
+		c.Sample("burst: 258 queued index updates with the worker held in a callback")
+	}
+}
+
+// c13Burst: the index worker is held inside its first query-change callback while one writer queues more
+// index updates than the queue holds (the environment answer "queue full"); afterwards the index must
+// still equal the stored values.
+func c13Burst(db *badger.DB, emit func(prop, desc string)) string {
+	var got []string
+	var calls int
+	overlap := false
+	r := scen.RunSeq(func() {
+		dbClear(db)
+		st := badgerstore.NewStore(db)
+		qs := badgerstore.NewQueryStore(st, c13IQ)
+		qs.AddIndex(badgerstore.Index{Name: "i", Key: func(v interface{}) []byte { return c13Key("i", v.(map[string]interface{})) }})
+		qs.AddIndex(badgerstore.Index{Name: "j", Key: func(v interface{}) []byte { return c13Key("j", v.(map[string]interface{})) }})
+		hold := make(chan struct{}, 1)
+		inCB := 0
+		qs.OnQueryChange(func(qc store.QueryChange) {
+			inCB++
+			if inCB > 1 {
+				overlap = true
+			}
+			calls++
+			if calls == 1 {
+				vsched.Recv(hold)
+			}
+			inCB--
+		})
+		put := func(id, key string, create bool) {
+			wt := st.Write(id)
+			v := map[string]interface{}{"k1": key}
+			if create {
+				wt.Create(v)
+			} else {
+				wt.Update(v)
+			}
+			wt.Close()
+		}
+		done := make(chan struct{}, 1)
+		vsched.Go("W", func() {
+			put("hot", "k0", true)
+			for i := 0; i < 254; i++ {
+				put(fmt.Sprintf("f%03d", i), "z", true)
+			}
+			put("hot", "k1", false)
+			put("hot", "k2", false)
+			put("hot", "k3", false)
+			vsched.Send(done, struct{}{})
+		})
+		vsched.AwaitQuiescence()
+		vsched.Send(hold, struct{}{})
+		vsched.Recv(done)
+		qs.Flush()
+		res, _ := qs.Query(c13Query{"i", "k", "", 0, -1, false}.values())
+		got, _ = res.([]string)
+	})
+	for _, p := range r.Panics {
+		emit("C13", "burst: thread panicked: "+firstLineOf(p))
+	}
+	if r.Deadlock {
+		emit("C13", "burst: deadlock")
+	}
+	if !sameIDs(got, []string{"hot"}) {
+		emit("C13", fmt.Sprintf("burst of 258 mutations while the index worker is busy: query for prefix k returns %v, the stored values give [hot]", got))
+	}
+	if calls != 258 {
+		emit("C14", fmt.Sprintf("burst: %d query-change callbacks for 258 key-changing mutations", calls))
+	}
+	if overlap {
+		emit("C16", "burst: two query-change callbacks ran at the same time (index updates are no longer handled by one goroutine)")
+	}
+	return strings.Join(got, ",")
 }
 
 func usedID(ops []c13Op, id string) bool {
@@ -419,6 +509,11 @@ func replayC13(input string) []string {
 	f := strings.Split(input, "|")
 	db := openDB()
 	defer db.Close()
+	if input == "burst" {
+		var out []string
+		c13Burst(db, func(prop, desc string) { out = append(out, prop+": "+desc) })
+		return out
+	}
 	qs := c13BasicQueries()
 	if len(f) > 2 && f[2] == "full" {
 		qs = c13FullQueries()
